@@ -128,7 +128,7 @@ func C08(cfg Cfg) int {
 	defer env.Stack.Close()
 
 	sizes := []int{1, 2, 3, 4, 5, 6, 7, 8, 9, 11, 15, 16, 17, 23, 31, 32, 33, 47, 63, 64, 100, 257, 400, 511}
-	rounds := cfg.N(2, 12)
+	rounds := cfg.N(2, 60)
 	var jobs []sigJob
 	flush := func() {
 		bad, cross := verifyAll(jobs)
